@@ -418,7 +418,9 @@ func (t *tr) oracleExpr(ce *ast.CallExpr, oi *oracleInfo) string {
 		r.sites[oi.name] = map[*ast.CallExpr]bool{}
 	}
 	r.sites[oi.name][ce] = true
-	if hasStorage && len(r.sites[oi.name]) > 1 {
+	if hasStorage && len(r.sites[oi.name]) > 1 && t.seven == nil {
+		// (round 7 lifts this: zwSearch builds the TT-shortcut child, the null-move child and the generator's children in the one
+		// frame buffer, each dead before the next is built - like every buffer question the subject of Impl/Alloc.lean / C09)
 		t.fail(ce, "two call sites of the oracle %s, which is given a buffer", oi.name)
 		return "?"
 	}
